@@ -88,7 +88,14 @@ def confirm(seedout: str, sid: str, prop: str) -> None:
     fresh_worktree()
     env = dict(ENV, PYTHONPATH=str(SCRATCH / 'src'))
     base_rc, base_out = sh(['/venv/bin/python', str(dest / 'demo.py')], cwd=SCRATCH, env=env)
-    base_pass = passed_tests(SCRATCH)
+    # the baseline's pass set depends only on the commit of /repo: computed once per commit, then reused
+    _, head = sh(['git', '-C', '/repo', 'rev-parse', 'HEAD'])
+    cache = pathlib.Path(f'/tmp/seedtool_baseline_{head.strip()[:12]}.json')
+    if cache.exists():
+        base_pass = set(json.loads(cache.read_text()))
+    else:
+        base_pass = passed_tests(SCRATCH)
+        cache.write_text(json.dumps(sorted(base_pass)))
     rc, out = sh(['git', 'apply', str(dest / 'patch.diff')], cwd=SCRATCH)
     if rc:
         raise SystemExit(f'patch does not apply: {out}')
